@@ -106,8 +106,8 @@ func (b *bitMask256) toTypes(reg *registry) []ID {
 	types := make([]ID, count)
 
 	totalIDs := reg.Count()
-	bins := totalIDs/wordSize + 1
-	bits := totalIDs % wordSize
+	bins := (totalIDs + wordSize - 1) / wordSize
+	bits := totalIDs - (bins-1)*wordSize
 
 	idx := 0
 	for i := range bins {
